@@ -193,7 +193,12 @@ def real_scale(rep, b, tier, rng):
     bvals = ["2010-03-05", "2010-03-05b", "2012-02-21", "2012-02-21b"]
     for tname, targs, vals in (("dconv", ["-f", "%FT%T"], vals0), ("dadd", ["+1h"], vals0), ("dround", ["/1h"], vals0), ("dconv", ["-i", "%FT%T%Z", "-f", "%s"], vals0),
                                ("dconv", ["-i", "%Y-%m-%db", "-f", "%F"], bvals), ("dadd", ["-i", "%Y-%m-%db", "-f", "%F", "+1d"], bvals),
-                               ("dround", ["-i", "%Y-%m-%db", "-f", "%F", "1mo"], bvals), ("dconv", ["-i", "%Y %b %dth", "-f", "%F"], ["2012 Mar 4th", "2012 Mar 4", "2012 Mar 22nd"])):
+                               ("dround", ["-i", "%Y-%m-%db", "-f", "%F", "1mo"], bvals),
+                               # date units are added on the wall clock of --from-zone, whichever way the value reaches the tool
+                               ("dadd", ["--from-zone", "Europe/Berlin", "-z", "Europe/Berlin", "+1d"], ["2012-03-24T12:00:00", "2012-10-27T12:00:00", "2012-03-24T02:30:00", "2012-06-01T00:00:00"]),
+                               ("dadd", ["--from-zone", "Asia/Tokyo", "-z", "Asia/Tokyo", "+1b"], ["2024-01-06T02:00:00", "2024-01-05T23:00:00", "2024-01-08T02:00:00"]),
+                               ("dadd", ["--from-zone", "America/New_York", "-z", "America/New_York", "+1mo"], ["2024-02-10T22:00:00", "2024-10-31T23:30:00"]),
+                               ("dadd", ["--from-zone", "America/New_York", "-z", "America/New_York", "+36h"], ["2024-03-09T22:00:00", "2024-11-02T12:00:00"]), ("dconv", ["-i", "%Y %b %dth", "-f", "%F"], ["2012 Mar 4th", "2012 Mar 4", "2012 Mar 22nd"])):
         tool = b.tool(tname)
         lines, want = [], []
         alone = {}
